@@ -131,7 +131,7 @@ class Weaver:
         return fns[0]
 
     # ---------------------------------------------------------------------------------
-    def weave_fn(self, unit, ctx, mode):
+    def weave_fn(self, unit, ctx, mode, name_suffix=None):
         """mode: 'verify' | 'stub' | 'vacuity'"""
         f = self.locate(unit, ctx)
         toks = self.idx.toks
@@ -239,6 +239,8 @@ class Weaver:
 
         sig_text = unit.sections.get("sig", "")
         sig_text = expand(sig_text, ctx)
+        if name_suffix:
+            out_name += name_suffix
         head = "%sfn %s%s%s%s%s" % ("".join(q + " " for q in quals), out_name, generics_txt, params_txt, ret_txt, where_txt)
 
         if mode == "vacuity":
